@@ -1,7 +1,7 @@
 """History generators for the two linked lists (`list` = src/cc_list.c, `slist` = src/cc_slist.c).
 
 Vocabulary (see harness/shim_list.c, harness/shim_slist.c):
-  new [o=k] | new_default | destroy | destroy_cb | drop o=k | drop_cb o=k
+  new [o=k] [obs=sparse] | new_default [obs=sparse] | observe | destroy | destroy_cb | drop o=k | drop_cb o=k
   add v | add_first v | add_last v | add_at v idx=i
   add_all from=j | add_all_at from=j idx=i | splice from=j | splice_at from=j idx=i
   remove v | remove_at idx=i | remove_first | remove_last | remove_all | remove_all_cb | replace_at v idx=i
@@ -500,11 +500,218 @@ class LinkedGen:
             l.sort()
         return [f"sort{o}"]
 
+    def sort_cmd(self, rng, sim, k, kind=None):
+        """one sort of slot k; kind in (None, 'sort', 'num', 'key')"""
+        l = sim.s[k]
+        o = f" o={k}" if k else ""
+        kinds = ["sort", "num", "key"] if self.dbl else ["sort"]
+        kind = kind if kind in kinds else rng.choice(kinds)
+        if kind == "sort":
+            if l or not self.dbl:
+                l.sort()
+            return f"sort{o}", kind
+        l.sort(key=(lambda x: x % 10) if kind == "key" else None)
+        return f"sort_in_place cmp={kind}{o}", kind
+
+    def unsorting_mutation(self, rng, sim, k):
+        """one mutation of slot k that (for most contents) destroys sortedness under both comparators:
+        a large value with key 9 towards the front, a small one with key 0/1 towards the back"""
+        l = sim.s[k]
+        n = len(l)
+        o = f" o={k}" if k else ""
+        big = rng.choice([99, 99, 89, 79])
+        small = rng.choice([1, 1, 10, 0, 11])
+        others = [x for x in sim.live() if x != k]
+        choices = ["replace_front", "replace_back", "replace_mid", "reverse", "add_first", "add_last", "add_at", "remove", "filter_mut",
+                   "it_replace", "it_add", "it_remove"]
+        if self.dbl:
+            choices += ["dit_replace", "dit_add"]
+        if others:
+            choices += ["add_all", "add_all_at", "zit_replace", "zit_add", "zit_remove"]
+            if not sim.mix:
+                choices += ["splice", "splice_at"]
+        c = rng.choice(choices)
+        if n == 0 and c not in ("add_first", "add_last", "add_all", "splice"):
+            c = "add_last"
+        if c == "replace_front":
+            l[0] = big
+            return [f"replace_at {big} idx=0{o}"]
+        if c == "replace_back":
+            l[n - 1] = small
+            return [f"replace_at {small} idx={n - 1}{o}"]
+        if c == "replace_mid":
+            v = rng.choice([big, small])
+            l[n // 2] = v
+            return [f"replace_at {v} idx={n // 2}{o}"]
+        if c == "reverse":
+            l.reverse()
+            return [f"reverse{o}"]
+        if c == "add_first":
+            l.insert(0, big)
+            return [f"add_first {big}{o}"]
+        if c == "add_last":
+            l.append(small)
+            return [rng.choice(["add", "add_last"]) + f" {small}{o}"]
+        if c == "add_at":
+            i = rng.choice([0, n // 2, n - 1])
+            v = big if i < n - 1 else small
+            l.insert(i, v)
+            return [f"add_at {v} idx={i}{o}"]
+        if c == "remove":
+            # a removal keeps the order; follow it by an insertion that does not
+            cc = rng.choice(["remove_first", "remove_last", "remove_at", "remove"])
+            if cc == "remove_first":
+                del l[0]; out = [f"remove_first{o}"]
+            elif cc == "remove_last":
+                del l[-1]; out = [f"remove_last{o}"]
+            elif cc == "remove_at":
+                i = n // 2
+                del l[i]; out = [f"remove_at idx={i}{o}"]
+            else:
+                v = rng.choice(l)
+                l.remove(v); out = [f"remove {v}{o}"]
+            if rng.random() < 0.7:
+                l.insert(0, big)
+                out.append(f"add_first {big}{o}")
+            return out
+        if c == "filter_mut":
+            l[:] = [x for x in l if x % 2 == 0]
+            out = [f"filter_mut{o}"]
+            if rng.random() < 0.7:
+                l.append(small)
+                out.append(f"add {small}{o}")
+            return out
+        if c in ("it_replace", "it_add", "it_remove"):
+            out = [f"it_new{o}", "it_next"]
+            if c == "it_replace":
+                l[0] = big
+                out.append(f"it_replace {big}")
+            elif c == "it_add":
+                l.insert(1, big)
+                out.append(f"it_add {big}")
+            else:
+                if n >= 2:
+                    out.append("it_next")
+                    del l[1]
+                else:
+                    del l[0]
+                out.append("it_remove")
+                l.insert(0, big)
+                out.append(f"add_first {big}{o}")
+            return out
+        if c in ("dit_replace", "dit_add"):
+            out = [f"dit_new{o}", "dit_next"]
+            if c == "dit_replace":
+                l[n - 1] = small
+                out.append(f"dit_replace {small}")
+            else:
+                l.insert(n - 1, big)          # cc_list_diter_add inserts in front of the yielded element
+                out.append(f"dit_add {big}")
+            return out
+        j = rng.choice(others)
+        lj = sim.s[j]
+        if c in ("add_all", "splice"):
+            l.extend(lj)
+            if c == "splice":
+                del lj[:]
+            out = [f"{c} from={j}{o}"]
+            l.append(small)
+            out.append(f"add {small}{o}")
+            return out
+        if c in ("add_all_at", "splice_at"):
+            i = 0
+            ok = lj and (i <= n if self.dbl else i < n)
+            if ok:
+                l[i:i] = list(lj)
+                if c == "splice_at":
+                    del lj[:]
+            out = [f"{c} from={j} idx={i}{o}"]
+            l.insert(0, big)
+            out.append(f"add_first {big}{o}")
+            return out
+        # zip mutators over (k, j)
+        out = [f"zit_new o={k} o2={j}", "zit_next"]
+        if not (n and lj):
+            l.append(small)
+            return out + [f"add {small}{o}"]
+        if c == "zit_replace":
+            l[0] = big; lj[0] = small
+            out.append(f"zit_replace {big} {small}")
+        elif c == "zit_add":
+            l.insert(1, big); lj.insert(1, small)
+            out.append(f"zit_add {big} {small}")
+        else:
+            del l[0]; del lj[0]
+            out.append("zit_remove")
+            l.insert(0, big)
+            out.append(f"add_first {big}{o}")
+        return out
+
+    def sort_family(self, rng, sim, k):
+        """sort -> mutation(s) that destroy sortedness -> sort again with the same comparator, then with the
+        other one, alternating `sort` and `sort_in_place`; nothing but the mutations between two sorts (no
+        lookups or traversal operations that might re-validate state a sort leaves behind in the list)"""
+        l = sim.s[k]
+        o = f" o={k}" if k else ""
+        out = []
+        while len(l) < rng.randint(3, 7):
+            v = val(rng)
+            l.append(v)
+            out.append(f"add {v}{o}")
+        if len(sim.live()) < 2 and rng.random() < 0.6:
+            j = sim.free_slot()
+            sim.s[j] = []
+            ctor = sim.ctor_for(j)
+            out.append(f"{ctor} o={j}" if j else ctor)
+            for v in rng.sample([47, 6, 18, 93, 2, 55], rng.randint(1, 4)):
+                sim.s[j].append(v)
+                out.append(f"add {v}" + (f" o={j}" if j else ""))
+        op, kind = self.sort_cmd(rng, sim, k)
+        out.append(op)
+        for rnd in range(rng.randint(1, 4)):
+            for _ in range(rng.choice([1, 1, 1, 2, 3])):
+                out += self.unsorting_mutation(rng, sim, k)
+            r = rng.random()
+            kinds = ["sort", "num", "key"] if self.dbl else ["sort"]
+            if r < 0.45:
+                nxt = kind                                     # the same comparator / the same function again
+            else:
+                nxt = rng.choice([x for x in kinds if x != kind] or kinds)
+            op, kind = self.sort_cmd(rng, sim, k, nxt)
+            out.append(op)
+            if rng.random() < 0.4 and len(kinds) > 1:           # directly followed by the other one
+                op, kind = self.sort_cmd(rng, sim, k, rng.choice([x for x in kinds if x != kind]))
+                out.append(op)
+        return out
+
     # ------------------------------------------------------------------ random histories
     def random(self, rng, n, tier, focus=None):
         out = []
         for _ in range(n):
-            out.append(self.one_history(rng, tier, focus))
+            h = self.one_history(rng, tier, focus)
+            # CONVENTIONS Addendum 2: about a third of the histories of every focus run in sparse observation mode
+            out.append(self.sparsify(rng, h) if rng.random() < 0.34 else h)
+        return out
+
+    @staticmethod
+    def sparsify(rng, ops):
+        """`obs=sparse` on the first constructor line, an `observe` every 5-15 operations and one before
+        the final destroy; nothing else changes (observe keeps a running iterator alive)"""
+        if not ops or not ops[0].startswith("new"):
+            return ops
+        out = [ops[0] + " obs=sparse"]
+        gap = rng.randint(5, 15)
+        for i, op in enumerate(ops[1:], 1):
+            last = i == len(ops) - 1
+            if last and op.startswith(("destroy", "drop")):
+                out.append("observe")
+            elif gap <= 0:
+                out.append("observe")
+                gap = rng.randint(5, 15)
+            out.append(op)
+            gap -= 1
+        if not ops[-1].startswith(("destroy", "drop")):
+            out.append("observe")
         return out
 
     def one_history(self, rng, tier, focus):
@@ -560,7 +767,7 @@ class LinkedGen:
             elif (focus == "derived" or allf) and r < (0.35 if focus == "derived" else 0.2):
                 new = self.derived_op(rng, sim, k)
             elif (focus == "sort" or allf) and r < (0.4 if focus == "sort" else 0.28):
-                new = self.sort_op(rng, sim, k)
+                new = self.sort_family(rng, sim, k) if rng.random() < (0.6 if focus == "sort" else 0.45) else self.sort_op(rng, sim, k)
             elif self.dbl and allf and r < 0.31:
                 new = [f"reduce" + (f" o={k}" if k else "")]
             elif r > 0.94 and (focus is None or allf):
@@ -712,6 +919,29 @@ class LinkedGen:
                     for e in sorted(set([0, 1, max(n - 1, 0), n, n + 1, SIZE_MAX])):
                         out.append(base + [f"mk_sub b={b} e={e} to=1"] + follow)
         if focus == "sort" or allf:
+            # sort -> every kind of mutation (one, or two in a row) -> sort again with the same and with the other
+            # comparator, alternating sort / sort_in_place; no observers in between
+            sorts = ["sort", "sort_in_place cmp=num", "sort_in_place cmp=key"] if self.dbl else ["sort"]
+            base = build([31, 12, 23, 14, 25]) + build([47, 6, 18], 1)
+            muts = [["replace_at 99 idx=0"], ["replace_at 1 idx=4"], ["replace_at 89 idx=2"], ["reverse"], ["add_first 99"], ["add_last 1"],
+                    ["add 10"], ["add_at 98 idx=1"], ["remove_first", "add_first 97"], ["remove_last", "add 2"], ["remove_at idx=2", "add_at 96 idx=0"],
+                    ["remove 23", "add_first 95"], ["filter_mut", "add 3"], ["add_all from=1"], ["add_all_at from=1 idx=1"], ["splice from=1"],
+                    ["splice_at from=1 idx=2"], ["it_new", "it_next", "it_replace 99"], ["it_new", "it_next", "it_add 97"],
+                    ["it_new", "it_next", "it_next", "it_remove", "add_first 94"],
+                    ["zit_new o=0 o2=1", "zit_next", "zit_replace 99 1"], ["zit_new o=0 o2=1", "zit_next", "zit_add 96 3"],
+                    ["zit_new o=0 o2=1", "zit_next", "zit_next", "zit_remove", "add_first 93"],
+                    ["sort o=1", "splice_at from=1 idx=0", "add_first 92"]]
+            if self.dbl:
+                muts += [["dit_new", "dit_next", "dit_replace 1"], ["dit_new", "dit_next", "dit_add 98"],
+                         ["dit_new", "dit_next", "dit_next", "dit_remove", "add 4"]]
+            for s1 in sorts:
+                for mi, mu in enumerate(muts):
+                    for s2 in sorts:
+                        s3 = sorts[(sorts.index(s2) + 1) % len(sorts)]
+                        out.append(base + [s1] + mu + [s2, "replace_at 88 idx=0", s3, "destroy"])
+                    if mi % 3 == 0:
+                        mu2 = [m for m in muts[(mi + 5) % len(muts)] if "from=1" not in m and not m.startswith("zit") and "o=1" not in m]
+                        out.append(base + [s1] + mu + mu2 + [s1, "add_last 1", sorts[-1], "reverse", sorts[0], "destroy"])
             L = 6 if quick else 8
             for n in range(0, L + 1):
                 for keys in itertools.product([1, 2, 3], repeat=n):
@@ -722,6 +952,8 @@ class LinkedGen:
                         out.append(build(vals) + ["sort", "add 5", "remove_last", "destroy"])
         if focus == "fault" or allf:
             out.append(["new fail=1", "destroy"])
+        srng = random.Random(20240)
+        out = [self.sparsify(srng, h) if i % 3 == 2 else h for i, h in enumerate(out)]
         return out
 
     def fault_seeds(self, tier):
